@@ -1,7 +1,7 @@
 PROP = dict(
         engine="accounts", harness="accounts", driver="drv_accounts",
         props=["Hostd.Props.C04"],
-        quick=dict(n=1600, len=50, shards=8, timeout=300),
+        quick=dict(n=1200, len=50, shards=8, timeout=300),
         thorough=dict(n=24000, len=80, shards=16, timeout=1500),
         # monitors / mismatch fields of the shared `accounts` engine that belong to C04
         flag_filter=r"^(c04\.|no_overdraft|budget_iff|commit_exact|rollback_refunds|failed_commit_keeps_reservation|failed_reservation_refunds|reservation_eq|ledger_eq|metrics_eq/|mixed_protocol_reservation|no_double_spend|no_panic)",
